@@ -6,6 +6,11 @@
 (***************************************************************************)
 EXTENDS AnsiValue
 
+\* strict reading of an input SGR body: digits and ';' only, no empty parameter unless wholly empty
+SgrStrictOK(params) ==
+  params = << >> \/ (LET pl == ParamList(params) IN pl.ok /\ TermEffs(pl.ps).ok)
+
+
 ---------------------------------------------------------------------------
 (***************************************************************************)
 (* Expected results are described by SEGMENTS over the pre-state:          *)
